@@ -331,6 +331,9 @@ def run(chk):
         for t in D.struct_templates(chk.rng, k):
             if t["expect"] == "accept":
                 cases.append((None, t["source"], "struct"))
+    for c in D.gen_literal_cases(chk.rng, 90 if quick else 900, start=70000):
+        sts = c["inputs"][0]           # literals of special magnitude where the polymorphic-zero rule decides
+        cases.append((sts, "\n".join(D.src_stmt(s) for s in sts), "literal"))
     for k in range(160 if quick else 2500):
         sts = gen_rebind(chk.rng, k)
         cases.append((sts, "\n".join(D.src_stmt(s) for s in sts), "rebind"))
@@ -391,7 +394,7 @@ def run(chk):
                 kf = fd
             elif m.get("kind") == "zero-literal-unitless" and f["kind"].startswith("run-time unit") \
                     and f.get("runtime_unit") == "q||D[]" \
-                    and (re.search(r"(?m)^let %s(: [^=]*)? = 0$" % re.escape(f.get("name", "?")), src)
+                    and (re.search(r"(?m)^let %s(: [^=]*)? = \(?-?0(\.0*)?(e[-+]?\d+)?\)?$" % re.escape(f.get("name", "?")), src)
                          or zero_operand_in_definition(src, f.get("name", "?"))):
                 kf = fd
         if kf:
@@ -434,7 +437,9 @@ def run(chk):
         "rule": "corpus (the two confirmed findings) + seeded well-dimensioned multi-statement programs from the C02 "
                 "generator (units with prefixes, constant integer/fractional/composite exponents, derived units and "
                 "dimensions, generic/inferred functions, where-clauses, conditionals, lists) + a stream of powers with "
-                "composite decimal exponents + a family of re-bindings (globals and functions re-bound with the same or "
+                "composite decimal exponents + literals of special magnitude (zero spellings, subnormal, smallest normal, "
+                "scientific notation, huge finite) in every position where the polymorphic-zero rule decides (the accepted "
+                "ones are executed) + a family of re-bindings (globals and functions re-bound with the same or "
                 "another dimension before/after nullary, parametrised, where-clause and conditional functions that read "
                 "them; parameters and where-locals shadowing globals; every function result bound to a global); every "
                 "accepted program is executed; distinct = distinct vectors of inferred "
